@@ -35,15 +35,18 @@ var wrappers = []struct{ name, text string }{
 	local.get $r
 )
 `},
-	// on_free poisons the payload and answers whether the real free is to be called
-	// (0: quarantine mode, or the address is not live - the violation is already recorded).
+	// on_free poisons the payload and answers which address is to be handed to the real free NOW:
+	// poison mode: ptr itself; quarantine mode: the oldest quarantined block once the quarantine is full, else 0;
+	// 0 as well when ptr is not allocated (the violation is recorded, the allocator is left alone).
 	{"runtime.free", `
 (func $runtime.free %EXPORT% (param $ptr i32)
+	(local $q i32)
 	local.get $ptr
 	global.get $__heap_ptr
 	call $verif.on_free
+	local.tee $q
 	if
-		local.get $ptr
+		local.get $q
 		call $runtime.free.orig
 	end
 )
